@@ -153,7 +153,7 @@ package lib
 //@   requires addrFree(errConnReset) && addrFree(errConnRefused) && addrFree(errConnAborted) && addrFree(errUnreachable) && addrFree(errConnTimeout) && addrFree(errNetOp) && addrFree(io.ErrShortWrite)
 //@   requires src != nil && dst != nil && wg != nil && logger != nil && stats != nil && stats.proxyStats != nil
 // ghost normalisation (digests and flags are relative to the start of the call; not an obligation of callers)
-//@   requires @SAFETY: txh(dst) == rxh(src) && !wfail(dst) && !closed(dst) && !spawned_halfPipe_2(src)
+//@   requires @SAFETY: txh(dst) == rxh(src) && !wfail(dst) && !closed(dst) && !spawned_halfPipe_2(src) && !rdEnded(src)
 //@   let counted := ite(isUpload, stats.BytesUp, stats.BytesDown)
 //@   requires addrFreeStr(stats.ClientConnErr) && addrFreeStr(stats.CovertConnErr)
 // C17: whatever errors the two connections return, the error texts kept for the tunnel summary are address-free
@@ -162,11 +162,16 @@ package lib
 // returns more than the buffer holds)
 //@   atcall Errorf before: assert @C17: er == nil || addrFree(er)
 //@   ensures @C05: !wfail(dst) ==> txh(dst) == rxh(src)
+// "... up to the point where one side fails": a direction ends only for a reason - a Read on the source returned an
+// error (end of stream included), a Write to the destination failed or was short, or a deadline could not be set (the
+// branch that logs it); in particular a Read that returns no bytes and no error does not end it
+//@   atcall Errorln before: snap deadlineRefused := true
+//@   ensures @C05: rdEnded(src) || wfail(dst) || defined(deadlineRefused)
 //@   ensures @C05: closed(dst) && spawned_halfPipe_2(src)
 //@   ensures @C05: wgdone(wg) == old(wgdone(wg)) + 1
 //@   ensures @C05: stats.BytesUp + stats.BytesDown == old(stats.BytesUp + stats.BytesDown) + nwritten(dst) - old(nwritten(dst))
 //@ loop 1:
-//@   invariant @C05: txh(dst) == rxh(src) && !wfail(dst)
+//@   invariant @C05: txh(dst) == rxh(src) && !wfail(dst) && !rdEnded(src) && !defined(deadlineRefused)
 //@   invariant @C17: addrFreeStr(stats.ClientConnErr) && addrFreeStr(stats.CovertConnErr)
 //@   invariant !closed(dst) && !spawned_halfPipe_2(src) && wgdone(wg) == old(wgdone(wg)) && stats.proxyStats != nil && len(buf) == 32768 && fresh(buf)
 //@   invariant @C05: stats.BytesUp + stats.BytesDown == old(stats.BytesUp + stats.BytesDown) + nwritten(dst) - old(nwritten(dst))
